@@ -824,7 +824,13 @@ def main(argv):
         "with one another (parent: all entities; plain child: entities with child data; extended child: loading variants all parent entities, "
         "bucket-level variants those with extension data), the entities the loading variants hand out are equal, GetRelatedEntitiesIdList / "
         "GetRelatedEntitiesCursor / IsEntityRelated show the stored string lists through the parent; after a DeleteById through ANY store of the family "
-        "no entity / child data / field / set fact and no unique- or set-index entry of the parent's or ANY child store's index names the id. Non-trivial: mixed population and a committed update/delete of an entity with child data.",
+        "no entity / child data / field / set fact and no unique- or set-index entry of the parent's or ANY child store's index names the id. "
+        "Seventh wave (store_c15w7.go): QueryWithCursorC through every store of a family over every cursor provider - IteratorMatchingAllOf / AnyOf of the "
+        "parent's set indexes, GetRelatedEntitiesCursor of link collections and fk back-reference sets, tree sets of ids (QC tokens, answered by the scan "
+        "loops of Store/PagingCursor.v over the candidate list): a plain child store returns / counts only candidates with child data, an extended one and "
+        "the parent every candidate; wirings C15lp / C15lx / C15lm whose PARENT declares link collections (to a peer store and to itself), links aimed at "
+        "entities with child data: both sides of those collections are compared with the machine, agree after every committed transaction "
+        "(C15:parent-links), and no peer lists an id after its DeleteById / DeleteWhere through any store of the family. Non-trivial: mixed population and a committed update/delete of an entity with child data.",
         nontrivial=nontrivial)
     c.cov["paged_queries"] = dict(QP_STATS)
     c.cov["delete_where"] = dict(DW_STATS)
